@@ -26,7 +26,7 @@ func c20(c *core.Check) {
 		"(all ordered pairs enumerated). Also decided: names unique and well-formed, every Features field is a bool with one tag, the reflective action closure captures per-iteration copies and indexes the field with the index its name came from, " +
 		"checkBool accepts exactly \"\",\"true\",\"false\", validateOptions lies on every nil-return path of HandleOptions after the slim=>no-deep-equal assignment, option action errors are returned, " +
 		"prepareUtilities stores HandleOptions' error and buildResponse reports it, README rows are options of the code with the same defaults. " +
-		"NOT decided: what each flag does to generated code; the nested-struct template adaptation in args.checkOptions (observed to match the docs only for an absent template; see DESIGN D11)."
+		"(+) args.checkOptions: if the nested-struct adaptation can write the template option at all, its guard is false for template=slim and template=raw_struct (evaluated over the template names). NOT decided: what each flag does to generated code."
 	c.RuleText = "one obligation per ordered name pair, per Features field, per option action, per return path of HandleOptions, per README row; non-trivial = needed a path, dataflow or table argument"
 	c.Assume = []string{"strings.HasPrefix, reflect.Type.Field/Value.Field behave as documented", "options reach HandleOptions split at the first '=' (read from its body)"}
 	pk := c.Prog.Pkg(golangRel)
@@ -386,6 +386,7 @@ func c20(c *core.Check) {
 		}
 	}
 	c.Min("action-error", 5)
+	c20nestedTemplate(c)
 	// the reject paths named by the statement: use_package (len(parts)<2), naming_style (nil style), template (UseTemplate error)
 	c20rejects(c, info, actions)
 
